@@ -581,7 +581,7 @@ class CSVWriter extends rbql.RBQLOutputWriter {
 
     simple_join(fields) {
         var res = fields.join(this.delim);
-        if (fields.some((v) => String(v).indexOf(this.delim) != -1)) {
+        if (res.split(this.delim).length != fields.length) { // Same test as in the Python writer: the joined line must split back into the same number of fields
             this.delim_in_simple_output = true;
         }
         return res;
